@@ -17,8 +17,6 @@ NOT_APPLICABLE = {
     "C17": "expand_replacement/replace* are String/Peekable<Chars> code: the bounded harness that was written "
            "(j2_expand_replacement_2) does not terminate under CBMC within 10 min / memory cap, and Verus rejects "
            "Peekable and str byte reasoning; a run that does not terminate is not evidence",
-    "C18": "escape() builds a String (harness j4_escape_char does not terminate under CBMC) and the 'matches exactly s' "
-           "half needs the parser and C01-level composition; nothing is claimed",
     "C08": "acceptance of exactly L(ES2025 Pattern[flags]) needs a grammar specification and a contract over the whole "
            "recursive-descent parser (Peekable/HashMap/String: rejected by Verus, intractable through try_parse in "
            "Kani); the table-like pieces are discharged under C18/C12",
